@@ -95,3 +95,54 @@ logging.disable(logging.CRITICAL)
 sys.path.insert(0, %(verif)r)
 from props import native
 '''
+
+
+def with_own_hydrogens(base, perturb=0.0, at_residue_end=False):
+    """The records of `base` (amino-acid content) with the program's own hydrogens inserted after their heavy atoms; `perturb` moves
+    every hydrogen by a deterministic offset of that size (A) so that they are NOT at the program's ideal positions."""
+    import math
+    base = [l for l in base if not l.startswith('HETATM')]
+    mol = run_text(base)
+    conf = mol.conformations[mol.conformation_names[0]]
+    index = {}
+    for l in base:
+        if l[:6] == 'ATOM  ':
+            index[(l[21].strip() or '_', int(l[22:26]), l[26], l[12:16].strip())] = l
+    extra = {}
+    n = 0
+    for a in conf.atoms:
+        if a.element != 'H' or not a.bonded_atoms:
+            continue
+        hv = a.bonded_atoms[0]
+        if min(((a.x - b.x) ** 2 + (a.y - b.y) ** 2 + (a.z - b.z) ** 2) for b in conf.atoms
+               if b is not a and b is not hv and b.element != 'H') < 1.6 ** 2:
+            continue
+        k = (hv.chain_id, hv.res_num, hv.icode, hv.name)
+        t = index.get(k)
+        if t is None:
+            continue
+        n += 1
+        dx, dy, dz = (perturb * math.cos(n), perturb * math.sin(n) * 0.6, perturb * math.sin(2.0 * n) * 0.5) if perturb else (0.0, 0.0, 0.0)
+        nm = a.name[:4]
+        field = (' ' + nm).ljust(4) if len(nm) < 4 else nm
+        t = t.rstrip('\n').ljust(80)
+        extra.setdefault(k, []).append(t[:12] + field + t[16:30] + '%8.3f%8.3f%8.3f' % (a.x + dx, a.y + dy, a.z + dz) + t[54:76] + ' H' + t[78:] + '\n')
+    out = []
+    if not at_residue_end:
+        for l in base:
+            out.append(l)
+            if l[:6] == 'ATOM  ':
+                out.extend(extra.get((l[21].strip() or '_', int(l[22:26]), l[26], l[12:16].strip()), []))
+        return out
+    # the usual layout of protonation tools: heavy atoms of a residue first, then all of its hydrogens (also after OXT)
+    pending, cur = [], None
+    for l in base:
+        res = (l[21], l[22:27]) if l[:6] == 'ATOM  ' else None
+        if res != cur:
+            out.extend(pending)
+            pending, cur = [], res
+        out.append(l)
+        if l[:6] == 'ATOM  ':
+            pending.extend(extra.get((l[21].strip() or '_', int(l[22:26]), l[26], l[12:16].strip()), []))
+    out.extend(pending)
+    return out
